@@ -18,6 +18,19 @@ fn layer_codes(l: &Layer) -> Vec<u32> {
     v
 }
 
+/// The last `n` bytes of a (possibly long) string for the trace, cut so that the excerpt does not START inside a multi-byte
+/// sequence (leading continuation bytes are skipped); whether the whole string is valid is recorded separately (`valid`).
+fn tail_at_boundary(body: &[u8], n: usize) -> Vec<u8> {
+    if body.len() <= n {
+        return body.to_vec();
+    }
+    let mut start = body.len() - n;
+    while start < body.len() && body[start] & 0xC0 == 0x80 {
+        start += 1;
+    }
+    body[start..].to_vec()
+}
+
 fn str_event(src: &str, what: &str, s: &str) -> Value {
     json!({"ev":"str","src":src,"what":what,"bytes":s.as_bytes()})
 }
@@ -271,6 +284,51 @@ pub fn c10(a: &Args) {
                     }
                     load_event(&mut u, &mut out, "icy", &format!("fontname:{bn}:hits={hits}"), &write_chunks(&cs));
                 }
+            }
+        }
+    }
+    // (4) macro bodies (DECDMAC): text and hex form, bytes >= 0x80 (stored as two-byte UTF-8 sequences), repeat groups that
+    //     reach or cross the 32767-byte macro space at every alignment; the stored bodies are read through the
+    //     cfg(icy_engine_verif) hook `ansi::Parser::verif_macro_bytes`
+    {
+        use icy_engine::{ansi, BufferParser, Caret};
+        let mut payloads: Vec<(String, Vec<u8>)> = vec![];
+        for pre in ["", "41", "4142", "E9", "41E9"] {
+            for grp in ["E9", "41E9", "E941", "C3A9", "FF", "80", "E9E9E9", "41"] {
+                for n in [1u32, 2, 16383, 16384, 20000, 32766, 32767, 32768, 99999] {
+                    payloads.push((format!("hex:pre={pre}:grp={grp}:n={n}"), format!("\x1bP0;1;1!z{pre}!{n};{grp};\x1b\\").into_bytes()));
+                    payloads.push((format!("hex2:pre={pre}:grp={grp}:n={n}"), format!("\x1bP1;1;1!z{pre}!{n};{grp};!{n};{grp};41\x1b\\").into_bytes()));
+                }
+            }
+        }
+        for len in [1usize, 100, 16383, 16384, 32766, 32767, 32768, 40000] {
+            for fill in [0xE9u8, 0x41, 0xFF, 0x80] {
+                let mut b = b"\x1bP2;0;0!z".to_vec();
+                b.extend(std::iter::repeat(fill).take(len));
+                b.extend(b"\x1b\\");
+                payloads.push((format!("text:len={len}:fill={fill:#x}"), b.clone()));
+                let mut b2 = b"\x1bP3;0;0!zA".to_vec();
+                b2.extend(std::iter::repeat(fill).take(len));
+                b2.extend(b"\x1b\\");
+                payloads.push((format!("text:A+len={len}:fill={fill:#x}"), b2));
+            }
+        }
+        for (what, bytes) in payloads {
+            if !u.begin(&mut out, "macro", &what) { continue; }
+            let r = guard(|| {
+                let mut buf = Buffer::create((80, 25));
+                buf.is_terminal_buffer = true;
+                let mut caret = Caret::default();
+                let mut parser = ansi::Parser::default();
+                for b in &bytes { let _ = parser.print_char(&mut buf, 0, &mut caret, *b as char); }
+                parser.verif_macro_bytes()
+            });
+            match r {
+                Ok(ms) => {
+                    for (id, body) in ms { out.ev(&json!({"ev":"str","src":"macro","what":format!("{what}:id={id}:len={}", body.len()),"bytes":tail_at_boundary(&body, 96),"valid":std::str::from_utf8(&body).is_ok() as u8})); }
+                    out.ev(&json!({"ev":"cells","src":"macro","what":what,"r":"ok","codes":[]}));
+                }
+                Err(p) => out.ev(&json!({"ev":"cells","src":"macro","what":what,"r":"panic","site":panic_site(&p),"codes":[]})),
             }
         }
     }
